@@ -953,7 +953,11 @@ class OmniParser(PVLParser):
                 ):
                     last_token = self._last_value[1]
 
-                if isinstance(last_v, str) and last_token.is_parameter_name():
+                if (
+                    isinstance(last_v, str)
+                    and last_token is not None
+                    and last_token.is_parameter_name()
+                ):
                     # Fix the previous entry
                     module.pop()
                     module.append(last_k, self._empty_value(t.pos))
@@ -1020,6 +1024,17 @@ class OmniParser(PVLParser):
         value = super().parse_value(tokens)
         self._last_value = (value, t)
         return value
+
+    def parse_statement_delimiter(self, tokens: abc.Generator) -> bool:
+        """Extends the parent function to note that a statement which
+        was ended by an explicit delimiter is complete: its value cannot
+        be the Parameter Name of a following statement, see
+        parse_module_post_hook().
+        """
+        found = super().parse_statement_delimiter(tokens)
+        if found and self._last_value is not None:
+            self._last_value = (self._last_value[0], None)
+        return found
 
     def parse_value_post_hook(self, tokens: abc.Generator):
         """Overrides the parent function to allow for more
